@@ -354,6 +354,7 @@ func serverCase(c, out map[string]interface{}) {
 		base, ch = s, &httpgrpc.Channel{Transport: &memTransport{h: s}, BaseURL: u}
 	}
 	// the decoration
+	var decorated *grpc.ServiceDesc
 	if c["via"] == "InterceptServer" {
 		d := orig
 		for i := range layers {
@@ -364,6 +365,7 @@ func serverCase(c, out map[string]interface{}) {
 			}
 			d = nd
 		}
+		decorated = d
 		base.RegisterService(d, impl)
 	} else {
 		reg := base
@@ -415,7 +417,61 @@ func serverCase(c, out map[string]interface{}) {
 	log.mu.Lock()
 	word := append([]string{}, log.word...)
 	out["infook"] = log.infoOK
+	out["seen"], out["seenreq"] = seqs(log.seen), seqs(log.seenReq)
 	log.mu.Unlock()
+	if t2, ok := c["t2"].(string); ok {
+		// the same decorated description once more, through a carrier with
+		// another transport-level interceptor
+		log.mu.Lock()
+		log.word = nil
+		log.mu.Unlock()
+		var tu2 grpc.UnaryServerInterceptor
+		var ts2 grpc.StreamServerInterceptor
+		if kind == "unary" {
+			tu2 = srvUnaryInt("T2", t2, log, method, impl)
+		} else {
+			ts2 = srvStreamInt("T2", t2, log, method, wantCS, wantSS, impl)
+		}
+		var result2 []string
+		if c["carrier"] == "registry" {
+			d, h := hm.QueryService(icSvc)
+			if kind == "unary" {
+				dec := func(m interface{}) error { return nil }
+				resp, err := d.Methods[target-1].Handler(h, context.Background(), dec, tu2)
+				if err != nil {
+					result2 = tokens(status.Convert(err).Message())
+				} else {
+					result2 = tokens(string(resp.(*gt.Message).Payload))
+				}
+			} else {
+				fs := &fakeServerStream{ctx: context.Background()}
+				err := d.Streams[target-1].Handler(h, fs)
+				result2 = append([]string{}, fs.sent...)
+				if err != nil {
+					result2 = append(result2, tokens(status.Convert(err).Message())...)
+				}
+			}
+		} else {
+			ic2 := &inprocgrpc.Channel{}
+			ic2.WithServerUnaryInterceptor(tu2).WithServerStreamInterceptor(ts2)
+			ic2.RegisterService(decorated, impl)
+			if kind == "unary" {
+				resp := new(gt.Message)
+				err := ic2.Invoke(context.Background(), method, &gt.Message{}, resp)
+				if err != nil {
+					result2 = tokens(status.Convert(err).Message())
+				} else {
+					result2 = tokens(string(resp.Payload))
+				}
+			} else {
+				st, err := ic2.NewStream(context.Background(), &grpc.StreamDesc{StreamName: sname, ClientStreams: true, ServerStreams: true}, method)
+				result2 = collectStream(st, err)
+			}
+		}
+		log.mu.Lock()
+		out["word2"], out["result2"] = append([]string{}, log.word...), result2
+		log.mu.Unlock()
+	}
 	// "other kind" interceptors must never run for this call
 	for _, w := range word {
 		if strings.HasSuffix(w, "o") {
@@ -423,9 +479,6 @@ func serverCase(c, out map[string]interface{}) {
 		}
 	}
 	out["word"], out["result"] = word, result
-	log.mu.Lock()
-	out["seen"], out["seenreq"] = seqs(log.seen), seqs(log.seenReq)
-	log.mu.Unlock()
 	out["descsame"] = reflect.DeepEqual(before, snapDesc(orig))
 	out["sameptr"] = sameptr
 }
